@@ -938,6 +938,99 @@ func TestLbvcScenarioHighWatermark(t *testing.T) {
 	lbvcScenarioTail(t, problems)
 }
 
+// A committed reader asked to start INSIDE the uncommitted tail of the log (high watermark < start <= newest offset: a
+// leader whose followers lag behind) delivers the messages from its start offset on, once they are committed - not the
+// messages before the start offset that happened to be committed after the reader was created (C10: "exactly the
+// committed messages ... in the requested range"). A start beyond the end of the log is capped: the reader gets the
+// next committed message (TestReaderCommittedCapOffset pins that).
+func TestLbvcScenarioStartInUncommittedTail(t *testing.T) {
+	var problems []string
+	for _, segBytes := range []int64{100, 1 << 20} {
+		for _, c := range []struct{ n, hw0, start int64; steps []int64 }{
+			{10, 4, 8, []int64{9}},
+			{10, 4, 8, []int64{6, 9}},
+			{10, 4, 7, []int64{5, 6, 7, 9}},
+			{10, -1, 3, []int64{1, 9}},
+			{6, 2, 5, []int64{5}},
+		} {
+			l, cleanup := lbvcLog(t, Options{MaxSegmentBytes: segBytes})
+			for i := int64(0); i < c.n; i++ {
+				l.Append([]*Message{lbvcMsg(int(i), 0)})
+			}
+			if c.hw0 >= 0 {
+				l.SetHighWatermark(c.hw0)
+			}
+			desc := fmt.Sprintf("segment bytes %d, log 0..%d, high watermark %d, committed reader started at %d, then the watermark moves to %v", segBytes, c.n-1, c.hw0, c.start, c.steps)
+			r, err := l.NewReader(c.start, false)
+			if err != nil {
+				problems = append(problems, desc+": NewReader: "+err.Error())
+				cleanup()
+				continue
+			}
+			var got []int64
+			hb := make([]byte, 28)
+			for _, hw := range c.steps {
+				l.SetHighWatermark(hw)
+				for {
+					ctx, cancel := context.WithTimeout(context.Background(), 200*time.Millisecond)
+					_, off, _, _, err := r.ReadMessage(ctx, hb)
+					cancel()
+					if err != nil {
+						break
+					}
+					got = append(got, off)
+					if off > hw {
+						problems = append(problems, desc+fmt.Sprintf(": the reader was handed offset %d while the high watermark is %d", off, hw))
+					}
+				}
+			}
+			var want []int64
+			for o := c.start; o <= c.steps[len(c.steps)-1]; o++ {
+				want = append(want, o)
+			}
+			if fmt.Sprint(got) != fmt.Sprint(want) {
+				problems = append(problems, desc+fmt.Sprintf(": delivered %v, the committed messages from the start offset on are %v", got, want))
+			}
+			cleanup()
+		}
+	}
+	// a reader started at the log's NEXT offset (a new-only subscription) while the watermark lags: the older messages
+	// that become committed later are not for it
+	{
+		l, cleanup := lbvcLog(t, Options{MaxSegmentBytes: 100})
+		for i := 0; i < 6; i++ {
+			l.Append([]*Message{lbvcMsg(i, 0)})
+		}
+		l.SetHighWatermark(2)
+		if r, err := l.NewReader(6, false); err == nil {
+			hb := make([]byte, 28)
+			var got []int64
+			rd := func() {
+				for {
+					ctx, cancel := context.WithTimeout(context.Background(), 200*time.Millisecond)
+					_, off, _, _, err := r.ReadMessage(ctx, hb)
+					cancel()
+					if err != nil {
+						return
+					}
+					got = append(got, off)
+				}
+			}
+			l.SetHighWatermark(5)
+			rd()
+			l.Append([]*Message{lbvcMsg(6, 0)})
+			l.Append([]*Message{lbvcMsg(7, 0)})
+			l.SetHighWatermark(7)
+			rd()
+			if fmt.Sprint(got) != "[6 7]" {
+				problems = append(problems, fmt.Sprintf("log 0..5, high watermark 2, committed reader started at the next offset 6; watermark to 5, two more messages, watermark to 7: delivered %v, the messages from the start offset on are [6 7]", got))
+			}
+		}
+		cleanup()
+	}
+	lbvcScenarioTail(t, problems)
+}
+
 func lbvcScenarioTail(t *testing.T, problems []string) {
 	if len(problems) > 0 {
 		if len(problems) > 6 {
